@@ -13,14 +13,15 @@
 #include "vfsa.h"
 #include "vdec.h"
 #include <unistd.h>
+#include <math.h>
 #include <sys/stat.h>
 #include <soundswallower/err.h>
 #include <soundswallower/ssverif.h>
 #include <soundswallower/feat.h>
 
 static const char *models[2] = { "en-us", "fr-fr" };
-static const char *files[] = { "mdef", "means", "variances", "sendump", "transition_matrices", "feat_params.json", "feature_transform" };
-#define NFILES 7
+static const char *files[] = { "mdef", "means", "variances", "sendump", "transition_matrices", "feat_params.json", "feature_transform", "mixture_weights" };
+#define NFILES 8
 static const char *all_files[] = { "mdef", "means", "variances", "sendump", "transition_matrices", "feat_params.json", "noisedict.txt" };
 
 typedef struct fault { int kind; long a; unsigned b; int accept; char desc[120]; char cls[40]; } fault;
@@ -83,6 +84,7 @@ static void enumerate(fileinfo *fi, const char *name, int tier, uint64_t seed)
             for (q = 0; q < (int)nf; ++q) add_word_faults(fi, he + 16 + 4 * q, vh_path("veclen%d", q), 0);
             add_word_faults(fi, he + 16 + 4 * nf, "n_floats", 0); counts_end = he + 20 + 4 * nf;
         } else if (!strcmp(name, "transition_matrices")) { for (q = 0; q < 4; ++q) add_word_faults(fi, he + 4 + 4 * q, tn[q], 0); counts_end = he + 20; }
+        else if (!strcmp(name, "mixture_weights")) { static const char *wn[] = { "n_sen", "n_feat", "n_comp", "n_floats" }; for (q = 0; q < 4; ++q) add_word_faults(fi, he + 4 + 4 * q, wn[q], 0); counts_end = he + 20; }
         else { for (q = 0; q < 4; ++q) add_word_faults(fi, he + 4 + 4 * q, ln[q], 0); counts_end = he + 20; }
         add_fault(fi, F_WORD, he, 0x44332211u, 0, "magic", "byte-order magic swapped"); add_fault(fi, F_WORD, he, 0xdeadbeefu, 0, "magic", "byte-order magic garbage"); add_fault(fi, F_WORD, he, 0x11223345u, 0, "magic", "byte-order magic incremented");
         if (chk) { add_fault(fi, F_CHKSUM, n - 4, 1, 0, "checksum", "checksum word: lowest bit flipped"); add_fault(fi, F_CHKSUM, n - 1, 0x80, 0, "checksum", "checksum word: highest bit flipped"); }
@@ -129,6 +131,32 @@ static void enumerate(fileinfo *fi, const char *name, int tier, uint64_t seed)
     }
 }
 
+/* Neither bundled model ships a mixture_weights file (they use the senone dump), but the statement names it: an equivalent
+ * file is derived from the fr-fr senone dump (same quantised weights, written as probabilities) so that read_mixw /
+ * senone_mixw_read see a well-formed file whose damaged versions can be enumerated. */
+static char *make_mixture_weights(int m, size_t *out_n)
+{
+    size_t dn = 0; unsigned char *d = (unsigned char *)vh_read_file(vh_path("%s/model/%s/sendump", vh_repo, models[m]), &dn), *w;
+    long o = 0; unsigned L; int n_feat = 0, r, c, f, i, sidx; char *out, *p; uint32_t sum = 0, v; float fl; static const char hdr[] = "s3\nversion 1.0\nchksum0 yes\nendhdr\n";
+    if (!d) return NULL;
+    for (;;) { memcpy(&L, d + o, 4); o += 4; if (L == 0) break; if (!strncmp((char *)d + o, "feature_count ", 14)) n_feat = atoi((char *)d + o + 14); o += (long)L; }
+    memcpy(&r, d + o, 4); memcpy(&c, d + o + 4, 4); o += 8; w = d + o;
+    if (n_feat <= 0 || r <= 0 || c <= 0 || (size_t)o + (size_t)n_feat * (size_t)r * (size_t)c > dn) { free(d); return NULL; }
+    *out_n = strlen(hdr) + 4 + 16 + (size_t)c * (size_t)n_feat * (size_t)r * 4 + 4;
+    out = (char *)malloc(*out_n + 16); p = out;
+    memcpy(p, hdr, strlen(hdr)); p += strlen(hdr);
+    v = 0x11223344u; memcpy(p, &v, 4); p += 4;
+#define PUT32(x) do { v = (uint32_t)(x); memcpy(p, &v, 4); p += 4; sum = ((sum << 20) | (sum >> 12)) + v; } while (0)
+    PUT32(c); PUT32(n_feat); PUT32(r); PUT32((uint32_t)c * (uint32_t)n_feat * (uint32_t)r);
+    for (sidx = 0; sidx < c; ++sidx) for (f = 0; f < n_feat; ++f) for (i = 0; i < r; ++i) {
+        unsigned q = w[((size_t)f * (size_t)r + (size_t)i) * (size_t)c + (size_t)sidx];
+        fl = (float)exp(-(double)(q << 10) * log(1.0001)); memcpy(&v, &fl, 4); memcpy(p, &v, 4); p += 4; sum = ((sum << 20) | (sum >> 12)) + v;
+    }
+    memcpy(p, &sum, 4);
+    free(d);
+    return out;
+}
+
 static long ncases(int tier, long req)
 {
     int m, f; long t = 0;
@@ -136,7 +164,8 @@ static long ncases(int tier, long req)
     vd_init();
     for (m = 0; m < 2; ++m) for (f = 0; f < NFILES; ++f) {
         fileinfo *fi = &FI[m][f]; const char *path = (f == 6) ? vh_path("%s/tests/data/feature_transform", vh_repo) : vh_path("%s/model/%s/%s", vh_repo, models[m], files[f]);
-        if (!fi->data) { fi->data = (char *)vh_read_file(path, &fi->n); if (fi->data) { fi->hdr_end = find_hdr_end(fi->data, fi->n, files[f]); if (!(f == 6 && m == 1)) enumerate(fi, files[f], tier, 99 + (uint64_t)(m * 16 + f)); } }
+        if (f == 7 && m == 0) { base[m][f] = t; continue; }     /* the derived mixture_weights file: fr-fr only (3 MB instead of 8) */
+        if (!fi->data) { fi->data = (f == 7) ? make_mixture_weights(m, &fi->n) : (char *)vh_read_file(path, &fi->n); if (fi->data) { fi->hdr_end = find_hdr_end(fi->data, fi->n, files[f]); if (!(f == 6 && m == 1)) enumerate(fi, files[f], tier, 99 + (uint64_t)(m * 16 + f)); } }
         base[m][f] = t; t += (tier ? 2L : 1L) * fi->nf;      /* thorough: every fault heap-backed and mmap; quick: one of the two, alternating (VERIF_SEED flips which) */
     }
     total_cases = t;
@@ -183,12 +212,11 @@ static decoder_t *try_init(const char *dir, int m, int with_lda, int mmap)
 static int reference_ok(decoder_t *d, int m)
 {
     long nr; const int16_t *rec; const char *h; int32 sc;
-    if (m != 0) return 1;
-    rec = vd_recording(0, &nr);
-    if (decoder_set_jsgf_string(d, "#JSGF V1.0; grammar g; public <a> = go ( forward | backward ) ( ten | two ) ( meters | meter );") != 0) return 0;
+    rec = vd_recording(m == 0 ? 0 : 1, &nr);
+    if (decoder_set_jsgf_string(d, m == 0 ? "#JSGF V1.0; grammar g; public <a> = go ( forward | backward ) ( ten | two ) ( meters | meter );" : "#JSGF V1.0; grammar g; public <a> = ( avance | recule ) de ( dix | deux ) ( mètres | mètre );") != 0) return 0;
     decoder_start_utt(d); decoder_process_int16(d, (int16 *)rec, (size_t)nr, 0, 1); decoder_end_utt(d);
     h = decoder_hyp(d, &sc);
-    return h && !strcmp(h, "go forward ten meters");
+    return h && !strcmp(h, m == 0 ? "go forward ten meters" : "avance de dix mètres");
 }
 
 /* the feature transform is loaded by feat_init(); a model that accepts the bundled one does not exist, so that entry point is driven directly */
@@ -225,7 +253,7 @@ static void run(long i, vh_rng *r)
     /* scratch model directory: symlinks to the intact files, the damaged one written out */
     snprintf(dir, sizeof(dir), "%s/m%ld", vh_tmpdir(), i);
     mkdir(dir, 0777);
-    for (k = 0; k < 7; ++k) { if (!strcmp(all_files[k], files[f])) continue; if (symlink(vh_path("%s/model/%s/%s", vh_repo, models[m], all_files[k]), vh_path("%s/%s", dir, all_files[k])) != 0) { /* ignore */ } }
+    for (k = 0; k < 7; ++k) { if (!strcmp(all_files[k], files[f]) || (f == 7 && !strcmp(all_files[k], "sendump"))) continue; if (symlink(vh_path("%s/model/%s/%s", vh_repo, models[m], all_files[k]), vh_path("%s/%s", dir, all_files[k])) != 0) { /* ignore */ } }
     apply_fault(fi, ft, &data, &n, &remove_file);
     if (!remove_file) vh_write_file(vh_path("%s/%s", dir, files[f]), data, n);
     free(data);
@@ -252,7 +280,7 @@ static void run(long i, vh_rng *r)
     }
     /* clean the scratch directory */
     for (k = 0; k < 7; ++k) unlink(vh_path("%s/m%ld/%s", vh_tmpdir(), i, all_files[k]));
-    unlink(vh_path("%s/m%ld/feature_transform", vh_tmpdir(), i)); rmdir(vh_path("%s/m%ld", vh_tmpdir(), i));
+    unlink(vh_path("%s/m%ld/feature_transform", vh_tmpdir(), i)); unlink(vh_path("%s/m%ld/mixture_weights", vh_tmpdir(), i)); rmdir(vh_path("%s/m%ld", vh_tmpdir(), i));
     vh_count(heap ? "cases_heap_backed" : "cases_mmap", 1);
     vh_count(vh_path("file_%s", files[f]), 1);
     vh_nontrivial("%d/%d/%ld", m, f, off);
